@@ -8,6 +8,7 @@ import (
 	"runtime"
 	"strconv"
 	"strings"
+	"sync"
 	"time"
 
 	"github.com/philpearl/plenc"
@@ -659,6 +660,78 @@ func parseCorpusFile(s string) (byte, []byte, bool) {
 	return target, data, n == 2
 }
 
+// c04Finish: at the end of a shard the long-lived instances (whose interning tables hold every
+// distinct value the shard has decoded) take hostile inputs from 8 goroutines at once. No meters
+// here - only the verdicts that need none: no panic, no fatal error, no fault.
+func c04Finish(c *core.Ctx) {
+	st, ok := c.State.(*c04State)
+	if !ok || c.Arg != "" || c.Lane == "fuzz" {
+		return
+	}
+	st.wd.Busy.Store(false)
+	r := rand.New(rand.NewPCG(uint64(c.Seed), uint64(c.Shard)+99))
+	for ti := range st.targets {
+		if !st.intern[ti] || ti%4 != c.Shard%4 {
+			continue // targets with interned fields, each on a quarter of the shards
+		}
+		const g, per = 8, 250
+		t := st.targets[ti]
+		uniq := ti * 1000000
+		fresh := func() []byte {
+			v := (&gen.VG{R: r, C: t.cfg, Budget: 6, Unique: &uniq}).Value(t.typ, "")
+			data, _, _ := marshal(st.insts[ti], nil, ptrTo(v))
+			return data
+		}
+		if st.intern[ti] {
+			// the tables of the interned fields hold a few thousand values before the goroutines start
+			// (by count of fresh strings, not of messages: every unseen value copies its field's whole
+			// table - known finding D30 - so the cost is quadratic in the number of values)
+			for i := 0; i < 4300 && uniq-ti*1000000 < 9000; i++ {
+				target := reflect.New(t.typ)
+				core.Guard(func() { _ = st.insts[ti].Unmarshal(fresh(), target.Interface()) })
+			}
+		}
+		inputs := make([][][]byte, g)
+		for w := range inputs {
+			for i := 0; i < per; i++ {
+				if i%2 == 0 {
+					inputs[w] = append(inputs[w], fresh()) // values nobody has seen yet
+				} else {
+					inputs[w] = append(inputs[w], mutate(r, st.valid[ti]))
+				}
+			}
+		}
+		core.TheCursor.Note("end-of-shard concurrent phase: 8 goroutines decoding mutants on the long-lived instance of target=", st.targets[ti].name)
+		var wg sync.WaitGroup
+		fails := make([]string, g)
+		start := make(chan struct{})
+		for w := 0; w < g; w++ {
+			wg.Add(1)
+			go func(w int) {
+				defer wg.Done()
+				<-start
+				for _, in := range inputs[w] {
+					target := reflect.New(st.targets[ti].typ)
+					if pn := core.Guard(func() { _ = st.insts[ti].Unmarshal(in, target.Interface()) }); pn != "" {
+						fails[w] = fmt.Sprintf("input %s: %s", hexHead(in), trunc1(pn))
+						return
+					}
+				}
+			}(w)
+		}
+		close(start)
+		wg.Wait()
+		c.Rec.Eval(g * per)
+		c.Rec.Count("concurrent_hostile_decodes", g*per)
+		for w, f := range fails {
+			if f != "" {
+				c.Rec.ViolationAt(-1, "decode-panic", fmt.Sprintf("Unmarshal panicked on target %s while 8 goroutines were decoding hostile inputs on one long-lived instance (goroutine %d): %s", st.targets[ti].name, w, f), map[string]any{"target": st.targets[ti].name})
+				return
+			}
+		}
+	}
+}
+
 func c04Case(c *core.Ctx, idx int) {
 	st := c.State.(*c04State)
 	st.cur.idx = idx
@@ -748,8 +821,9 @@ func init() {
 			}
 			return lanes
 		},
-		Setup: c04Setup,
-		Case:  c04Case,
+		Setup:  c04Setup,
+		Case:   c04Case,
+		Finish: c04Finish,
 	})
 }
 
